@@ -48,7 +48,7 @@ MANIFEST = {
             'dimension lengths, whose VGLVLS has NLAYS+1 entries, whose '
             'SDATE/STIME equal the first time flag and whose TSTEP dimension '
             'is unlimited.'
-            ' Also: copy(data=False), index lists/steps over TSTEP and LAY, length-preserving callables along TSTEP.',
+            ' Also: copy(data=False), index lists/steps over TSTEP and LAY, length-preserving callables along TSTEP; auxiliary variables sharing only the leading dimensions; files constructed by ioapi_base.from_arrays with and without a supplied TFLAG.',
     'note': 'Trusted: z3, symdatetime, real numpy. Structures bounded; '
             'operation pairs are not enumerated (induction over the coherent '
             'family).',
